@@ -635,6 +635,8 @@ def _ravel_concrete(idx, shape):
 def elementwise(fn, *operands, name="ew", kind="real"):
     """apply a scalar function pointwise with broadcasting; scalars are allowed as operands"""
     shapes = [o.shape for o in operands if isinstance(o, NDArr)]
+    if not shapes:
+        return fn(*operands)
     shape = broadcast_shapes(*shapes)
     readers = []
     for o in operands:
